@@ -248,6 +248,10 @@ def route_of(fn, ident, src_file):
             r["bodyPos"] = pos
         elif k == "query":
             r["query"] = True
+    # filter ORDER: every access filter of the chain stands before the first body filter
+    body_positions = [pos for pos, (name, arg) in enumerate(calls) if name == "and" and classify_filter(arg)[0] in ("body", "bodylimit")]
+    auth_positions = [pos for pos, (name, arg) in enumerate(calls) if name == "and" and classify_filter(arg)[0] == "auth"]
+    r["authBeforeBody"] = (not body_positions) or (not auth_positions) or max(auth_positions) < min(body_positions)
     if not r["ended"]:
         raise ExtractError("route %s has no path::end(): it would match every longer path" % ident)
     if not r["method"]:
@@ -290,6 +294,80 @@ def term_routes(fns, files, fn, term):
     if ch[1]:
         return flatten(fns, files, fn.name, ch, fn)
     raise ExtractError("composition in %s: cannot resolve %s" % (fn.name, term[:120]))
+
+# ----------------------------------------------------------------------------- closure routes of the binaries (cli/main.rs)
+
+def classify_main_filter(arg):
+    a = squeeze(arg)
+    m = re.fullmatch(r'warp::path\("([^"/]*)"\)', a)
+    if m:
+        return ("lit", m.group(1))
+    if a == "warp::path::end()":
+        return ("end", None)
+    m = re.fullmatch(r"warp::(get|post|put|delete|patch|head|options)\(\)", a)
+    if m:
+        return ("method", m.group(1))
+    if re.fullmatch(r"auth::with_auth\([A-Za-z_.()]+\)", a):
+        return ("access", "auth::with_auth")
+    if re.fullmatch(r"rate_limit::with_rate_limit\([A-Za-z_.()]+\)", a):
+        return ("ratelimit", None)
+    if a == "warp::ws()" or re.fullmatch(r"[a-z_]+_filter", a):
+        return ("inject", None)
+    raise ExtractError("main.rs: unknown filter shape in a closure route: " + arg.strip()[:160])
+
+def main_routes(text):
+    """`let <x>_route = warp::path("..")…` statements of cli/main.rs (handlers are closures)"""
+    out = []
+    fns = [(m.start(), m.group(1)) for m in re.finditer(r"\bfn\s+([A-Za-z_][A-Za-z0-9_]*)\s*[<(]", text)]
+    for m in re.finditer(r"\blet\s+([a-z_]+_route)\s*=", text):
+        i = m.end()
+        depth, j, n = 0, i, len(text)
+        while j < n:
+            c = text[j]
+            if c == '"':
+                j += 1
+                while j < n and text[j] != '"':
+                    j += 2 if text[j] == '\\' else 1
+            elif c in OPEN:
+                depth += 1
+            elif c in CLOSE:
+                depth -= 1
+            elif c == ";" and depth == 0:
+                break
+            j += 1
+        head, calls = parse_chain(text[i:j])
+        k, v = classify_main_filter(head)
+        if k != "lit":
+            raise ExtractError("main.rs: route %s does not start with a path literal" % m.group(1))
+        r = {"name": m.group(1), "fn": [f for pos, f in fns if pos < m.start()][-1], "path": [("lit", v)], "method": None,
+             "ended": False, "access": [], "rateLimited": False, "handler": False}
+        for name, arg in calls:
+            if name in ("and_then", "map"):
+                r["handler"] = True
+                continue
+            if name != "and":
+                raise ExtractError("main.rs: route %s uses .%s(..)" % (r["name"], name))
+            if r["handler"]:
+                raise ExtractError("main.rs: route %s has a filter after its handler" % r["name"])
+            k, v = classify_main_filter(arg)
+            if k == "lit":
+                r["path"].append(("lit", v))
+            elif k == "end":
+                r["ended"] = True
+            elif k == "method":
+                r["method"] = v
+            elif k == "access":
+                r["access"].append(v)
+            elif k == "ratelimit":
+                r["rateLimited"] = True
+        if not r["handler"]:
+            raise ExtractError("main.rs: route %s has no handler" % r["name"])
+        out.append(r)
+    # every such route must be mounted in a `.or(..)` composition of its function
+    for r in out:
+        if not re.search(r"(\.or\(\s*%s\s*\)|=\s*%s\s*\.or\()" % (r["name"], r["name"]), text):
+            raise ExtractError("main.rs: route %s is not mounted" % r["name"])
+    return out
 
 # ----------------------------------------------------------------------------- handler guards (cli/api.rs)
 
@@ -406,6 +484,7 @@ def main():
             if is_route(fn.lets[ident]) and (fn.name, ident) not in mounted:
                 raise ExtractError("route %s in %s is defined but not part of the composition" % (ident, fn.name))
     docs = doc_routes(os.path.join(REPO, "docs/api/openapi.yaml"))
+    mains = main_routes(strip_comments(open(os.path.join(REPO, "crates/varpulis-cli/src/main.rs")).read()))
 
     L = []
     L.append("import Varpulis.Model.Rbac")
@@ -418,14 +497,22 @@ def main():
     L.append("def codeRoutes : List Route := [")
     rows = []
     for r in routes:
-        rows.append("  { app := .%s, name := %s, method := .%s, path := %s,\n    auth := [%s], guard := .%s, handler := %s, body := %s, query := %s, rateLimited := %s }" % (
+        rows.append("  { app := .%s, name := %s, method := .%s, path := %s,\n    auth := [%s], guard := .%s, handler := %s, body := %s, query := %s, rateLimited := %s,\n    authBeforeBody := %s }" % (
             r["app"], lean_str(r["name"]), r["method"], lean_path(r["path"]), ", ".join(lean_auth(a) for a in r["auth"]),
-            r["guard"], lean_str(r["handler"]), b(r["body"]), b(r["query"]), b(r["rateLimited"])))
+            r["guard"], lean_str(r["handler"]), b(r["body"]), b(r["query"]), b(r["rateLimited"]), b(r["authBeforeBody"])))
     L.append(",\n".join(rows))
     L.append("]")
     L.append("")
     L.append("def docRoutes : List DocRoute := [")
     L.append(",\n".join("  { method := .%s, path := %s, req := %s }" % (d["method"], lean_path(d["path"]), lean_req(d["req"])) for d in docs))
+    L.append("]")
+    L.append("")
+    L.append("/-- closure routes of crates/varpulis-cli/src/main.rs (server mode and coordinator mode); they live in")
+    L.append("the binary's `async fn`s and cannot be linked into a harness: extracted and proved about, not driven -/")
+    L.append("def mainRoutes : List MainRoute := [")
+    L.append(",\n".join("  { fn := %s, name := %s, method := %s, path := %s, ended := %s, access := [%s], rateLimited := %s }" % (
+        lean_str(r["fn"]), lean_str(r["name"]), ("some .%s" % r["method"]) if r["method"] else "none", lean_path(r["path"]), b(r["ended"]),
+        ", ".join(lean_str(a) for a in r["access"]), b(r["rateLimited"])) for r in mains))
     L.append("]")
     L.append("")
     L.append("end Varpulis.Generated")
@@ -437,13 +524,15 @@ def main():
     for r in routes:
         T.append("\t".join([r["app"], r["name"], r["method"], pattern_text(r["path"]), ",".join(r["auth"]) or "-", r["guard"],
                             r["handler"], b(r["body"]), b(r["query"]), b(r["rateLimited"])]))
+    for r in mains:
+        T.append("\t".join(["main", r["name"], r["method"] or "-", pattern_text(r["path"]) + ("" if r["ended"] else "/*"), ",".join(r["access"]) or "-", "-", r["fn"], "-", "-", b(r["rateLimited"])]))
     for d in docs:
         T.append("\t".join(["doc", d["op"] or "-", d["method"], pattern_text(d["path"]), d["req"], "-", "-", "-", "-", "-"]))
     tsv = "\n".join(T) + "\n"
     if not os.path.exists(OUT_TSV) or open(OUT_TSV).read() != tsv:
         open(OUT_TSV, "w").write(tsv)
-    print("extract_routes: %d code routes (%s), %d documented operations" % (
-        len(routes), ", ".join("%s=%d" % (a, sum(1 for r in routes if r["app"] == a)) for a in apps), len(docs)))
+    print("extract_routes: %d code routes (%s), %d closure routes of main.rs, %d documented operations" % (
+        len(routes), ", ".join("%s=%d" % (a, sum(1 for r in routes if r["app"] == a)) for a in apps), len(mains), len(docs)))
 
 if __name__ == "__main__":
     try:
